@@ -184,6 +184,7 @@ def L4_strings(ctx, rid, core, G):
     has_escape = any(x["k"] == "str" and "\\" in x["v"] for x in G.walk(sv))
     ctx.inst(rid, "grammar#string-has-no-escapes", not has_escape, "string_value = (!PEEK ~ ANY)*: no escape alternative: %s" % (not has_escape), "blots-core/src/grammar.pest")
     string_atomic(ctx, rid, G)
+    L4_debug_strings(ctx, rid, core)
     pf = printer_fns(core)
     helper_counts = {}
     for name, f in sorted(pf.items()):
@@ -226,6 +227,22 @@ def L4_strings(ctx, rid, core, G):
             else:
                 ctx.inst(rid, "%s[%s]#%s%d" % (name.replace(CORE, ""), lab or "-", n["name"], k), False, why, H.loc(n))
                 k += 1
+
+
+def L4_debug_strings(ctx, rid, core):
+    """Debug formatting of text escapes what the grammar reads verbatim"""
+    pf = printer_fns(core)
+    n = 0
+    for name, f in sorted(pf.items()):
+        k = 0
+        for x in H.walk(f["body"]):
+            if H.kind(x) == "Macro" and x.get("name") in ("format", "write", "writeln", "format_args"):
+                for pc, node in H.placeholder_args(core, x):
+                    if pc.get("trait") == "Debug" and node is not None and re.search(r"(^|[&\s])(alloc::string::String|str)$", (H.strip(node).get("ty") or "").replace("&mut ", "&")):
+                        n += 1
+                        ctx.inst(rid, "%s#debug-formatted-text%d" % (name.replace(CORE, ""), k), False, "text is emitted with `{:?}`: Debug writes line breaks, tabs and other characters as escapes (\\n, \\t, \\u{..}) that the grammar has no reading for - the re-read string holds a backslash and a letter", H.loc(x))
+                        k += 1
+    ctx.inst(rid, "debug-formatted-text#none", n == 0, "texts emitted through Debug formatting in the printers: %d" % n, None)
 
 
 def L5_nonfinite(ctx, rid, core):
@@ -410,6 +427,50 @@ def R8_binders(ctx, rid, core):
 
 
 # ------------------------------------------------------------------ C09 rules
+def single_line_probe(ctx, rid, core):
+    """format_single_line answers a commented list / record with a placeholder that contains a line break ("[\n]"): its text is a
+    probe - emitted only after a test that it holds no line break (shared with C07: the placeholder parses as an empty list)"""
+    ctx.rule(rid, "the single-line rendering is a probe: outside format_single_line and its entry helper, its text is bound to a local that is used only under a `contains('\\n')` test of that local - the placeholder it returns for a list or record with comments (`[\\n]`) is never part of the output", floor=1)
+    SL = FMT + "format_single_line"
+    hf = core.hir.get(SL)
+    if hf is None:
+        ctx.inst(rid, "format_single_line", None, "function not found (the probe protocol is not used)", None)
+        return
+    placeholder = any(H.kind(x) == "Lit" and x.get("lk") == "str" and "\n" in str(x.get("v")) for x in H.walk(hf["body"]))
+    if not placeholder:
+        ctx.inst(rid, "format_single_line#placeholder", True, "format_single_line returns no text with a line break: nothing to guard", H.loc(hf["body"]))
+        return
+    family = {SL} | {d for d in core.hir if d.startswith(FMT) and any(H.kind(x) == "Call" and x.get("def") == d for x in H.walk(hf["body"]))}
+    n = 0
+    for name, f in sorted(printer_fns(core).items()):
+        if name in family or not name.startswith(FMT) or f.get("body") is None:
+            continue
+        calls = [x for x in H.walk(f["body"]) if H.kind(x) == "Call" and x.get("def") == SL]
+        if not calls:
+            continue
+        lets = [(s_["pat"]["name"], s_["init"]) for s_ in H.walk(f["body"]) if isinstance(s_, dict) and s_.get("k") == "Let" and H.kind(s_.get("pat")) == "Bind" and s_.get("init") is not None]
+        probes = {nm for nm, init in lets if any(any(y is c_ for y in H.walk(init)) for c_ in calls)}
+        for _ in range(3):
+            probes |= {nm for nm, init in lets if any(H.path_local(y) in probes for y in H.walk(init) if H.kind(y) == "Path")}
+        unbound = [H.loc(c_) for c_ in calls if not any(any(y is c_ for y in H.walk(init)) for _, init in lets)]
+        # every use of a probe local sits in an `if` whose condition tests that local for a line break
+        guarded_nodes = set()
+        for x in H.walk(f["body"]):
+            if H.kind(x) == "If":
+                tested = {H.path_local(H.strip(y["recv"])) for y in H.walk(x["cond"]) if H.kind(y) == "MethodCall" and y["name"] == "contains" and y.get("args") and H.lit(y["args"][0]) is not None and "\n" in str(H.lit(y["args"][0])["v"])}
+                if tested & probes:
+                    for y in H.walk(x["cond"]):
+                        guarded_nodes.add(id(y))
+                    for y in H.walk(x["then"]):
+                        guarded_nodes.add(id(y))
+        init_ids = {id(y) for _, init in lets for y in H.walk(init)}
+        loose = [H.loc(y) for y in H.walk(f["body"]) if H.kind(y) == "Path" and H.path_local(y) in probes and id(y) not in guarded_nodes and id(y) not in init_ids]
+        n += 1
+        ctx.inst(rid, "%s#single-line-probe" % name.replace(CORE, ""), not unbound and not loose,
+                 "probe locals %s; calls whose text is used in place: %s; uses outside a line-break test: %s" % (sorted(probes), unbound or "none", loose or "none"), H.loc(calls[0]))
+    ctx.inst(rid, "single-line-probe#callers", n >= 1, "%d caller(s) of format_single_line outside its own family" % n, None)
+
+
 def C09_fallbacks(ctx, rid, core):
     ctx.rule(rid, "the formatter reaches the comment-unaware printers (expr_to_source family, which drops Commented.leading/.trailing of list, record and do-block members) only where no commented member can occur", floor=2)
     pf = printer_fns(core)
